@@ -189,7 +189,7 @@ pub fn run_case(label: &str, rng: &mut Rng, _tier: Tier, out: &mut CaseOut) {
     let idx: u64 = parts[1].parse().unwrap();
     if parts[0] == "grpexh" {
         // left subset = idx (0..64) of the universe; all 64 right subsets; all 7 single ids
-        let uni: [u32; 6] = [1, 2, 5, 118, 9_999_999, 3];
+        let uni: [u32; 6] = [0, 1, 2, 118, 9_999_999, u32::MAX];
         let sub = |mask: u64| -> BTreeSet<u32> { (0..6).filter(|i| mask >> i & 1 == 1).map(|i| uni[i as usize]).collect() };
         let a = sub(idx);
         for mb in 0..64u64 {
@@ -198,7 +198,7 @@ pub fn run_case(label: &str, rng: &mut Rng, _tier: Tier, out: &mut CaseOut) {
             binary_ops(&a, &b, idx * 64 + mb, out);
             out.bucket("groupops/exhaustive_pairs");
         }
-        for x in uni.iter().chain([7u32].iter()) {
+        for x in uni.iter().chain([7u32, u32::MAX - 1].iter()) {
             single_ops(&a, *x, idx, out);
             out.bucket("groupops/exhaustive_single");
         }
@@ -219,6 +219,10 @@ pub fn run_case(label: &str, rng: &mut Rng, _tier: Tier, out: &mut CaseOut) {
     };
     let span = if rng.chance(1, 2) { (na + nb) as u64 + 4 } else { 10_000_000 };
     let mut a = BTreeSet::new();
+    // border ids are members now and then (0, the largest term id, the largest u32)
+    if na > 0 && rng.chance(1, 4) {
+        a.insert(*rng.pick(&[0u32, 9_999_999, u32::MAX, u32::MAX - 1]));
+    }
     while a.len() < na {
         a.insert(rng.below(span.max(na as u64 + 1)) as u32);
     }
@@ -227,6 +231,9 @@ pub fn run_case(label: &str, rng: &mut Rng, _tier: Tier, out: &mut CaseOut) {
         1 => a.iter().map(|x| x.wrapping_add(span as u32 + 1)).take(nb).collect(), // disjoint
         _ => BTreeSet::new(),
     };
+    if nb > 0 && b.len() < nb && rng.chance(1, 4) {
+        b.insert(*rng.pick(&[0u32, 9_999_999, u32::MAX, u32::MAX - 1]));
+    }
     while b.len() < nb {
         b.insert(rng.below(span.max(nb as u64 + 1)) as u32);
     }
